@@ -266,7 +266,6 @@ Proof. unfold no_nul. apply Forall_app. Qed.
 (* ---------------- sock_resolve: the model equals a pure function of the string ---------------- *)
 Section Resolve.
   Variable pton6 : list N -> option (list N).
-  Variable ntop6 : list N -> list N.
   (* typing of inet_pton(AF_INET6): it fills exactly the 16 bytes of an in6_addr *)
   Hypothesis pton6_len : forall s a, pton6 s = Some a -> length a = 16%nat.
 
@@ -439,3 +438,234 @@ Section Resolve.
   Corollary sock_resolve_no_fault s : no_nul s -> exists r, sock_resolve_m pton6 (cstr s) = Ok r.
   Proof. intros H. eexists. apply sock_resolve_model_spec, H. Qed.
 End Resolve.
+
+(* ---------------- printing, and resolving what was printed ---------------- *)
+Lemma fmt_pp4 x n : fmt_interp fmt_pp_ipv4 [PStr x; PNum n] = Ok (91 :: x ++ 93 :: 58 :: dec_digits n ++ []).
+Proof. reflexivity. Qed.
+Lemma fmt_pp6 x n : fmt_interp fmt_pp_ipv6 [PStr x; PNum n] = Ok (91 :: x ++ 93 :: 58 :: dec_digits n ++ []).
+Proof. reflexivity. Qed.
+
+Lemma be_val_be_bytes_2 port : port < 65536 -> be_val (be_bytes 2 port) = port.
+Proof. intros H. apply be_val_be_bytes. exact H. Qed.
+
+Lemma firstn_exact {A} (a b : list A) : firstn (length a) (a ++ b) = a.
+Proof. rewrite firstn_app, firstn_all, Nat.sub_diag. cbn [firstn]. apply app_nil_r. Qed.
+Lemma skipn_exact {A} (a b : list A) : skipn (length a) (a ++ b) = b.
+Proof. rewrite skipn_app, skipn_all, Nat.sub_diag. reflexivity. Qed.
+
+Lemma firstn_skipn_mid {A} (pre mid post : list A) n m :
+  length pre = n -> length mid = m -> firstn m (skipn n (pre ++ mid ++ post)) = mid.
+Proof. intros <- <-. rewrite skipn_exact. apply firstn_exact. Qed.
+
+Section RoundTrip.
+  Variable pton6 : list N -> option (list N).
+  Variable ntop6 : list N -> list N.
+  (* ASSUMED of the libc conversions for AF_INET6 (sampled by the correspondence run): *)
+  Hypothesis pton6_len : forall s a, pton6 s = Some a -> length a = 16%nat.
+  Hypothesis pton6_ntop6 : forall a, length a = 16%nat -> bytes_ok a -> pton6 (ntop6 a) = Some a.
+  Hypothesis ntop6_shape : forall a, length a = 16%nat -> bytes_ok a -> In 58 (ntop6 a) /\ no_nul (ntop6 a).
+
+  Lemma prettyprint_ipv4 port a0 a1 a2 a3 :
+    port < 65536 ->
+    sock_addr_prettyprint_m ntop6 (sa_ipv4 port [a0; a1; a2; a3]) =
+    Ok (Some (91 :: ntop4 [a0; a1; a2; a3] ++ 93 :: 58 :: dec_digits port)).
+  Proof. clear pton6_len pton6_ntop6 ntop6_shape.
+    intros Hp. unfold sock_addr_prettyprint_m, sa_ipv4. cbn [sa_family sa_name].
+    change (af_inet =? af_inet) with true. cbv iota.
+    unfold prettyprint_inet. cbn [sa_name].
+    change (length (sockaddr_in_of port [a0; a1; a2; a3])) with 16%nat.
+    change (negb (16 =? n_sin)%nat) with false. cbv iota.
+    change n_sin with (length (sockaddr_in_of port [a0; a1; a2; a3])). rewrite memcpy_whole. cbn [bind].
+    change (firstn 4 (skipn (N.to_nat off_sin_addr) (sockaddr_in_of port [a0; a1; a2; a3]))) with [a0; a1; a2; a3].
+    change (firstn 2 (skipn (N.to_nat off_sin_port) (sockaddr_in_of port [a0; a1; a2; a3]))) with (be_bytes 2 port).
+    rewrite be_val_be_bytes_2 by exact Hp. rewrite fmt_pp4. cbn [bind]. rewrite app_nil_r. reflexivity.
+  Qed.
+
+  Lemma prettyprint_ipv6 port a :
+    port < 65536 -> length a = 16%nat ->
+    sock_addr_prettyprint_m ntop6 (sa_ipv6 port a) = Ok (Some (91 :: ntop6 a ++ 93 :: 58 :: dec_digits port)).
+  Proof. clear pton6_len pton6_ntop6 ntop6_shape.
+    intros Hp La. unfold sock_addr_prettyprint_m, sa_ipv6. cbn [sa_family sa_name].
+    change (af_inet6 =? af_inet) with false. change (af_inet6 =? af_inet6) with true. cbv iota.
+    unfold prettyprint_inet. cbn [sa_name].
+    assert (length (sockaddr_in6_of port a) = 28%nat) as L28.
+    { unfold sockaddr_in6_of. rewrite !app_length, La. reflexivity. }
+    rewrite L28. change (negb (28 =? n_sin6)%nat) with false. cbv iota.
+    change n_sin6 with 28%nat. rewrite <- L28. rewrite memcpy_whole. cbn [bind].
+    change (N.to_nat off_sin6_addr) with 8%nat. change (N.to_nat off_sin6_port) with 2%nat.
+    assert (firstn 16 (skipn 8 (sockaddr_in6_of port a)) = a) as Ea.
+    { unfold sockaddr_in6_of. rewrite !app_assoc. rewrite <- (app_assoc _ a).
+      apply firstn_skipn_mid; [reflexivity | exact La]. }
+    assert (firstn 2 (skipn 2 (sockaddr_in6_of port a)) = be_bytes 2 port) as Eport by reflexivity.
+    rewrite Ea, Eport. rewrite be_val_be_bytes_2 by exact Hp. rewrite fmt_pp6. cbn [bind]. rewrite app_nil_r.
+    reflexivity.
+  Qed.
+
+  Lemma prettyprint_unix path :
+    no_nul path -> (length path < n_sun_path)%nat ->
+    sock_addr_prettyprint_m ntop6 (sa_unix path) = Ok (Some path).
+  Proof. clear pton6_len pton6_ntop6 ntop6_shape.
+    intros Hn Hl. unfold sock_addr_prettyprint_m, sa_unix. cbn [sa_family sa_name].
+    change (af_unix =? af_inet) with false. change (af_unix =? af_inet6) with false.
+    change (af_unix =? af_unix) with true. cbv iota.
+    unfold sockaddr_un_of. change (N.to_nat off_sun_path) with (length (native_bytes n_family af_unix)).
+    replace (n_sun_path - length path)%nat with (S (n_sun_path - length path - 1)) by lia. cbn [repeat].
+    rewrite cstr_at_ok by exact Hn. reflexivity.
+  Qed.
+
+  (* the bracket / last-colon glue on a printed address *)
+  Lemma resolve_spec_bracket ip ps p :
+    ~ In 58 ps -> parse_port ps = Some p ->
+    resolve_spec pton6 (91 :: ip ++ 93 :: 58 :: ps) =
+    if existsb (N.eqb 58) ip then inet6_spec pton6 ip p else inet4_spec ip p.
+  Proof. clear pton6_len pton6_ntop6 ntop6_shape.
+    intros Hc Hp. unfold resolve_spec. cbn [hd]. change (91 =? 47) with false. cbv iota.
+    replace (91 :: ip ++ 93 :: 58 :: ps) with ((91 :: ip ++ [93]) ++ 58 :: ps)
+      by (cbn [app]; rewrite <- app_assoc; reflexivity).
+    rewrite last_idx_found by exact Hc. cbn [Nat.add].
+    rewrite firstn_exact.
+    replace (S (length (91 :: ip ++ [93]))) with (length ((91 :: ip ++ [93]) ++ [58]))
+      by (rewrite app_length; cbn [length]; lia).
+    replace ((91 :: ip ++ [93]) ++ 58 :: ps) with (((91 :: ip ++ [93]) ++ [58]) ++ ps)
+      by (rewrite <- app_assoc; reflexivity).
+    rewrite skipn_exact. cbn [hd tl]. change (91 =? 91) with true. cbn [negb].
+    rewrite rev_app_distr. cbn [rev app]. change (93 =? 93) with true. cbn [negb].
+    rewrite rev_involutive, Hp. reflexivity.
+  Qed.
+
+  Theorem resolve_prettyprint_ipv4 port a0 a1 a2 a3 :
+    a0 < 256 -> a1 < 256 -> a2 < 256 -> a3 < 256 -> 1 <= port <= 65535 ->
+    exists str, sock_addr_prettyprint_m ntop6 (sa_ipv4 port [a0; a1; a2; a3]) = Ok (Some str) /\
+                no_nul str /\
+                sock_resolve_m pton6 (cstr str) = Ok (RAddrs [sa_ipv4 port [a0; a1; a2; a3]]).
+  Proof. clear pton6_ntop6 ntop6_shape.
+    intros H0 H1 H2 H3 [Hp1 Hp2].
+    assert (port < 65536) as Hp by lia.
+    destruct (dec_digits_port port Hp) as (Dd & _ & Dp). specialize (Dp Hp1).
+    pose proof (ntop4_chars a0 a1 a2 a3 H0 H1 H2 H3) as Ch.
+    assert (forall c, ip4_char c = false -> ~ In c (ntop4 [a0; a1; a2; a3])) as NoC.
+    { intros c Hc Hin. rewrite forallb_forall in Ch. specialize (Ch c Hin). congruence. }
+    exists (91 :: ntop4 [a0; a1; a2; a3] ++ 93 :: 58 :: dec_digits port).
+    split; [apply prettyprint_ipv4; exact Hp|].
+    assert (no_nul (91 :: ntop4 [a0; a1; a2; a3] ++ 93 :: 58 :: dec_digits port)) as Nn.
+    { constructor; [lia|]. apply no_nul_app. split.
+      - unfold no_nul. rewrite Forall_forall. intros x Hx ->. exact (NoC 0 eq_refl Hx).
+      - constructor; [lia|]. constructor; [lia|]. apply digits_no_nul, Dd. }
+    split; [exact Nn|].
+    rewrite (sock_resolve_model_spec pton6 pton6_len) by exact Nn.
+    rewrite (resolve_spec_bracket _ _ port) by first [exact Dp | apply digits_no_char; [exact Dd | reflexivity]].
+    replace (existsb (N.eqb 58) (ntop4 [a0; a1; a2; a3])) with false.
+    2:{ symmetry. apply not_true_is_false. intros E. apply existsb_exists in E. destruct E as (x & Hx & Ex).
+        apply N.eqb_eq in Ex. subst x. exact (NoC 58 eq_refl Hx). }
+    unfold inet4_spec. rewrite pton4_ntop4 by assumption. rewrite N.mod_small by lia. reflexivity.
+  Qed.
+
+  Theorem resolve_prettyprint_ipv6 port a :
+    length a = 16%nat -> bytes_ok a -> 1 <= port <= 65535 ->
+    exists str, sock_addr_prettyprint_m ntop6 (sa_ipv6 port a) = Ok (Some str) /\
+                no_nul str /\
+                sock_resolve_m pton6 (cstr str) = Ok (RAddrs [sa_ipv6 port a]).
+  Proof.
+    intros La Hb [Hp1 Hp2].
+    assert (port < 65536) as Hp by lia.
+    destruct (dec_digits_port port Hp) as (Dd & _ & Dp). specialize (Dp Hp1).
+    destruct (ntop6_shape a La Hb) as [Hc Hn6].
+    exists (91 :: ntop6 a ++ 93 :: 58 :: dec_digits port).
+    split; [apply prettyprint_ipv6; assumption|].
+    assert (no_nul (91 :: ntop6 a ++ 93 :: 58 :: dec_digits port)) as Nn.
+    { constructor; [lia|]. apply no_nul_app. split; [exact Hn6|].
+      constructor; [lia|]. constructor; [lia|]. apply digits_no_nul, Dd. }
+    split; [exact Nn|].
+    rewrite (sock_resolve_model_spec pton6 pton6_len) by exact Nn.
+    rewrite (resolve_spec_bracket _ _ port) by first [exact Dp | apply digits_no_char; [exact Dd | reflexivity]].
+    replace (existsb (N.eqb 58) (ntop6 a)) with true.
+    2:{ symmetry. apply existsb_exists. exists 58. split; [exact Hc | reflexivity]. }
+    unfold inet6_spec. rewrite pton6_ntop6 by assumption. rewrite N.mod_small by lia. reflexivity.
+  Qed.
+
+  Theorem resolve_prettyprint_unix path :
+    no_nul path -> hd 0 path = 47 -> (length path < n_sun_path)%nat ->
+    sock_addr_prettyprint_m ntop6 (sa_unix path) = Ok (Some path) /\
+    sock_resolve_m pton6 (cstr path) = Ok (RAddrs [sa_unix path]).
+  Proof. clear pton6_ntop6 ntop6_shape.
+    intros Hn Hh Hl. split; [apply prettyprint_unix; assumption|].
+    rewrite (sock_resolve_model_spec pton6 pton6_len) by exact Hn.
+    unfold resolve_spec. rewrite Hh. change (47 =? 47) with true. cbv iota.
+    replace (n_sun_path <=? length path)%nat with false by (symmetry; apply Nat.leb_gt; exact Hl).
+    reflexivity.
+  Qed.
+
+  (* a literal resolves to the address it denotes: "[a.b.c.d]:port", "[v6 text]:port" *)
+  Theorem resolve_ipv4_literal ip ps p a :
+    no_nul ip -> no_nul ps -> ~ In 58 ip -> ~ In 58 ps ->
+    parse_port ps = Some p -> pton4 ip = Some a ->
+    sock_resolve_m pton6 (cstr (91 :: ip ++ 93 :: 58 :: ps)) = Ok (RAddrs [sa_ipv4 (p mod 65536) a]).
+  Proof. clear pton6_ntop6 ntop6_shape ntop6.
+    intros Ni Np Ci Cp Hp Ha.
+    rewrite (sock_resolve_model_spec pton6 pton6_len).
+    2:{ constructor; [lia|]. apply no_nul_app. split; [exact Ni|]. constructor; [lia|]. constructor; [lia|exact Np]. }
+    rewrite (resolve_spec_bracket _ _ p) by assumption.
+    replace (existsb (N.eqb 58) ip) with false.
+    2:{ symmetry. apply not_true_is_false. intros E. apply existsb_exists in E. destruct E as (x & Hx & Ex).
+        apply N.eqb_eq in Ex. subst x. exact (Ci Hx). }
+    unfold inet4_spec. rewrite Ha. reflexivity.
+  Qed.
+
+  Theorem resolve_ipv6_literal ip ps p a :
+    no_nul ip -> no_nul ps -> In 58 ip -> ~ In 58 ps ->
+    parse_port ps = Some p -> pton6 ip = Some a ->
+    sock_resolve_m pton6 (cstr (91 :: ip ++ 93 :: 58 :: ps)) = Ok (RAddrs [sa_ipv6 (p mod 65536) a]).
+  Proof. clear pton6_ntop6 ntop6_shape ntop6.
+    intros Ni Np Ci Cp Hp Ha.
+    rewrite (sock_resolve_model_spec pton6 pton6_len).
+    2:{ constructor; [lia|]. apply no_nul_app. split; [exact Ni|]. constructor; [lia|]. constructor; [lia|exact Np]. }
+    rewrite (resolve_spec_bracket _ _ p) by assumption.
+    replace (existsb (N.eqb 58) ip) with true.
+    2:{ symmetry. apply existsb_exists. exists 58. split; [exact Ci | reflexivity]. }
+    unfold inet6_spec. rewrite Ha. reflexivity.
+  Qed.
+End RoundTrip.
+
+(* ---------------- sock_addr_ensure_port ---------------- *)
+Lemma fmt_port0_host x : fmt_interp fmt_ensure_port_host [PStr x] = Ok (x ++ [58; 48]).
+Proof. reflexivity. Qed.
+Lemma fmt_port0_addr x : fmt_interp fmt_ensure_port_addr [PStr x] = Ok (x ++ [58; 48]).
+Proof. reflexivity. Qed.
+
+(* C15: never a Fault; the result is the string itself or the string with ":0" appended *)
+Theorem sock_addr_ensure_port_no_fault s :
+  no_nul s -> exists r, sock_addr_ensure_port_m (cstr s) = Ok r /\ (r = s \/ r = s ++ [58; 48]).
+Proof.
+  intros Hn. unfold sock_addr_ensure_port_m, cstr.
+  rewrite strrchr_m_ok by exact Hn. cbn [bind]. rewrite cstr_at_ok0 by exact Hn. cbn [bind].
+  rewrite rd_hd. cbn [bind].
+  destruct (last_idx 58 s 0 None) as [ci|] eqn:El.
+  - destruct ci as [|k]; [exists s; auto|].
+    destruct (hd 0 s =? 47); [exists s; auto|].
+    destruct (negb (hd 0 s =? 91)); [exists s; auto|].
+    destruct (last_idx_bound _ _ _ _ _ El) as [?|[_ Hk]]; [discriminate|]. cbn [Nat.add] in Hk.
+    destruct (rd_ok (s ++ [0]) k) as (b & Eb & _); [rewrite app_length; cbn [length]; lia|].
+    rewrite Eb. cbn [bind]. destruct (negb (b =? 93)); [rewrite fmt_port0_addr|]; eexists; eauto.
+  - destruct (hd 0 s =? 47); [exists s; auto|].
+    destruct (negb (hd 0 s =? 91)); [rewrite fmt_port0_host | rewrite fmt_port0_addr]; eexists; eauto.
+Qed.
+
+(* ---------------- non-vacuity ---------------- *)
+Example resolve_example_ipv4 :      (* "[1.2.3.4]:80" *)
+  sock_resolve_x (cstr [91; 49; 46; 50; 46; 51; 46; 52; 93; 58; 56; 48]) = Ok (RAddrs [sa_ipv4 80 [1; 2; 3; 4]]).
+Proof. vm_compute. reflexivity. Qed.
+Example resolve_example_ipv6 :      (* "[::1]:65535" with the executable glibc-style model *)
+  sock_resolve_x (cstr [91; 58; 58; 49; 93; 58; 54; 53; 53; 51; 53]) =
+  Ok (RAddrs [sa_ipv6 65535 [0; 0; 0; 0; 0; 0; 0; 0; 0; 0; 0; 0; 0; 0; 0; 1]]).
+Proof. vm_compute. reflexivity. Qed.
+Example resolve_example_fail :      (* "[1.2.3.4]:0", "[", "[]:80" *)
+  sock_resolve_x (cstr [91; 49; 46; 50; 46; 51; 46; 52; 93; 58; 48]) = Ok RFail /\
+  sock_resolve_x (cstr [91]) = Ok RFail /\ sock_resolve_x (cstr [91; 93; 58; 56; 48]) = Ok RFail.
+Proof. repeat split; vm_compute; reflexivity. Qed.
+Example resolve_example_unterminated : sock_resolve_x [91; 58] = Fault.
+Proof. vm_compute. reflexivity. Qed.
+Example deserialize_example_short :
+  sock_addr_deserialize_m [2; 0; 0; 0; 1; 0; 0; 0; 16; 0; 0; 0; 2; 0] = Ok None.
+Proof. vm_compute. reflexivity. Qed.
+Example wf_sa_example : wf_sa (sa_ipv4 80 [1; 2; 3; 4]).
+Proof. unfold wf_sa. cbn. repeat split; lia. Qed.
